@@ -1,5 +1,6 @@
 (* C17: extraction of the sequence-API model (ExtrOcamlBasic only; N stays Coq's binary type) *)
 Require Import ExtrOcamlBasic.
-From ZV.Seq Require Import SeqApi.
+From ZV.Seq Require Import SeqApi SeqProducerFrame SeqFallback.
 Extraction "Extract/out/c17model.ml" compress_sequences producer_block producer_block_at post_process merge_delims generate_block
-  validate_sequence validate_fixed finalize_offbase update_rep sequence_bound exec_parse copy_no_delim copy_explicit determine_block_size.
+  validate_sequence validate_fixed finalize_offbase update_rep sequence_bound exec_parse copy_no_delim copy_explicit determine_block_size
+  producer_frame_fb fallback_history.
